@@ -650,6 +650,165 @@ Proof.
 Qed.
 
 (* ------------------------------------------------------------------ T0: short writes alone never fail *)
+(* ------------------------------------------------------------------ the repaired Wal *)
+Notation xstep' := (xstep B C crc wenv senv).
+Notation xrun' := (xrun B C crc wenv senv).
+Definition dead (x : walx) : Prop := x_failed x = true \/ x_shut x = true.
+Definition xfile (x : walx) : list byte := cur_file (x_wal x).
+
+Lemma xacked1 : forall c r cs rs, xacked (c :: cs) (r :: rs) = xacked [c] [r] ++ xacked cs rs.
+Proof.
+  intros c r cs rs. destruct c as [[[|b p]| | |]|]; cbn [xacked app]; auto. destruct r; reflexivity.
+Qed.
+
+Lemma abandon_file : forall a, cur_file (abandon a) = cur_file a.
+Proof. reflexivity. Qed.
+
+(* a failed or closed Wal: nothing is written any more, nothing is acknowledged *)
+Lemma dead_step : forall x c x' r,
+  dead x -> (match c with XC CRotate => false | _ => true end) = true ->
+  xstep' x c = (x', r) -> xfile x' = xfile x /\ dead x' /\ xacked [c] [r] = [].
+Proof.
+  intros x c x' r Hd Hc Hs. unfold dead in *.
+  destruct c as [[[|b p]| | |]|]; try discriminate; cbn [Fail.xstep] in Hs.
+  - inversion Hs; subst. auto.
+  - destruct (x_shut x) eqn:E1, (x_failed x) eqn:E2; cbn [orb] in Hs; try (inversion Hs; subst; rewrite ?E1, ?E2; auto; fail).
+    destruct Hd; discriminate.
+  - destruct (x_shut x) eqn:E1; [inversion Hs; subst; rewrite E1; auto|].
+    destruct (x_failed x) eqn:E2; [inversion Hs; subst; rewrite E2; auto|]. destruct Hd; discriminate.
+  - destruct (x_shut x) eqn:E1; [inversion Hs; subst; rewrite E1; auto|].
+    destruct (x_failed x) eqn:E2; [inversion Hs; subst; rewrite E2; auto|]. destruct Hd; discriminate.
+  - destruct (x_shut x) eqn:E1; [inversion Hs; subst; rewrite E1; auto|].
+    destruct (x_failed x) eqn:E2; [inversion Hs; subst; cbn; auto|]. destruct Hd; discriminate.
+Qed.
+
+Lemma xrun_dead : forall cs x x' rs,
+  dead x -> xno_rotate cs = true -> xrun' x cs = (x', rs) -> xfile x' = xfile x /\ xacked cs rs = [].
+Proof.
+  induction cs as [|c cs IH]; intros x x' rs Hd Hnr Hr; cbn [Fail.xrun] in Hr.
+  - inversion Hr; subst. auto.
+  - destruct (xstep' x c) as [x1 o] eqn:Es. destruct (xrun' x1 cs) as [x2 os] eqn:Er. inversion Hr; subst. clear Hr.
+    cbn [xno_rotate forallb] in Hnr. apply andb_true_iff in Hnr. destruct Hnr as [Hc Hnr].
+    assert (Hc' : (match c with XC CRotate => false | _ => true end) = true) by (destruct c as [[| | |]|]; auto).
+    destruct (dead_step _ _ _ _ Hd Hc' Es) as [F1 [D1 A1]].
+    destruct (IH _ _ _ D1 Hnr Er) as [F2 A2]. rewrite xacked1, A1, A2. split; [congruence|reflexivity].
+Qed.
+
+Lemma live_records : forall a em, INV a em -> cur_buf a = [] -> filter nonempty em = em ->
+  records B crc decompress (cur_file a) = em.
+Proof.
+  intros a em [Hst _] Hbuf Hne. unfold stream, bstream, cur_buf, cur_file in *. rewrite Hbuf, app_nil_r in Hst.
+  rewrite Hst. destruct (records_W B crc compress decompress HB Hcrc em) as [R _]. congruence.
+Qed.
+
+Lemma append_not_fsync : forall a b p a1, fstep B C crc wenv senv a (CAppend (b :: p)) = (a1, FFailFsync) -> False.
+Proof.
+  intros a b p a1 Hs. cbn [fstep] in Hs. destruct (add_record_f (a_w a) (b :: p)) as [w r] eqn:Ea.
+  inversion Hs; subst. destruct (add_record_f_spec _ _ _ _ Ea) as [_ [[E|[E|E]] _]]; discriminate.
+Qed.
+
+(* one step of a live Wal in a drained state: it stays live and drained with the acknowledged append added,
+   or it dies and the file delivers exactly what was acknowledged before *)
+Lemma live_step : forall x em c x' r,
+  x_failed x = false -> x_shut x = false ->
+  INV (x_wal x) em -> cur_buf (x_wal x) = [] -> filter nonempty em = em ->
+  (match c with XC CRotate => false | _ => true end) = true ->
+  xstep' x c = (x', r) ->
+  (x_failed x' = false /\ x_shut x' = false /\ INV (x_wal x') (em ++ xacked [c] [r]) /\ cur_buf (x_wal x') = []) \/
+  (dead x' /\ records B crc decompress (xfile x') = em /\ xacked [c] [r] = []).
+Proof.
+  intros x em c x' r Hf Hsh Hinv Hbuf Hne Hc Hs. unfold dead, xfile.
+  assert (Hrec : forall _ : unit, records B crc decompress (cur_file (x_wal x)) = em) by (intros _; apply live_records; auto).
+  destruct c as [[[|b p]| | |]|]; try discriminate; cbn [Fail.xstep] in Hs; rewrite ?Hf, ?Hsh in Hs; cbn [orb] in Hs.
+  - inversion Hs; subst. left. cbn [xacked]. rewrite app_nil_r. auto.
+  - destruct (fstep B C crc wenv senv (x_wal x) (CAppend (b :: p))) as [a1 o] eqn:Ef. unfold lift in Hs.
+    destruct o; inversion Hs; subst; clear Hs; cbn [x_failed x_shut x_wal xacked].
+    + left. destruct (step_quiet _ _ _ _ _ Hinv Hbuf Ef eq_refl eq_refl) as [I1 [B1 _]]. auto.
+    + left. destruct (step_quiet _ _ _ _ _ Hinv Hbuf Ef eq_refl eq_refl) as [I1 [B1 _]]. cbn in I1. rewrite app_nil_r in *. auto.
+    + right. split; [auto|]. split; [|reflexivity]. rewrite abandon_file.
+      eapply step_torn; eauto; solve [reflexivity | discriminate].
+    + right. split; [auto|]. split; [|reflexivity]. rewrite abandon_file.
+      eapply step_torn; eauto; solve [reflexivity | discriminate].
+    + exfalso. eapply append_not_fsync; eauto.
+  - destruct (do_flush wenv (x_wal x)) as [a1 o] eqn:Ef.
+    destruct (do_flush_spec _ _ _ Ef) as [_ [_ [_ [_ [_ H6]]]]]. destruct (H6 Hbuf) as [E Ew]. subst o.
+    unfold lift in Hs. inversion Hs; subst; clear Hs. cbn [x_failed x_shut x_wal xacked]. left. rewrite app_nil_r.
+    split; [auto|]. split; [auto|]. unfold INV, cur_buf in *. rewrite Ew. auto.
+  - destruct (do_sync wenv senv (x_wal x)) as [a1 o] eqn:Ef.
+    destruct (do_sync_spec _ _ _ Ef) as [H1 [H2 [_ [H4 [H5 _]]]]]. destruct (H5 Hbuf) as [E1 [E2 E3]].
+    unfold lift in Hs.
+    destruct o; inversion Hs; subst; clear Hs; cbn [x_failed x_shut x_wal xacked]; try (destruct H4 as [E|[E|E]]; discriminate); try congruence.
+    + left. rewrite app_nil_r. split; [auto|]. split; [auto|]. split; [|exact E1]. unfold INV in *. destruct Hinv. split; congruence.
+    + right. split; [auto|]. split; [|reflexivity]. rewrite abandon_file. unfold cur_file in *. rewrite E2. exact (Hrec tt).
+  - destruct (do_sync wenv senv (x_wal x)) as [a1 o] eqn:Ef.
+    destruct (do_sync_spec _ _ _ Ef) as [_ [_ [_ [_ [H5 _]]]]]. destruct (H5 Hbuf) as [_ [E2 _]].
+    inversion Hs; subst; clear Hs. cbn [x_failed x_shut x_wal]. right. split; [auto|]. split.
+    { unfold cur_file in *. rewrite E2. exact (Hrec tt). } destruct o; reflexivity.
+Qed.
+
+Lemma xrun_live : forall cs x em x' rs,
+  x_failed x = false -> x_shut x = false ->
+  INV (x_wal x) em -> cur_buf (x_wal x) = [] -> filter nonempty em = em ->
+  xno_rotate cs = true -> xrun' x cs = (x', rs) ->
+  records B crc decompress (xfile x') = em ++ xacked cs rs.
+Proof.
+  induction cs as [|c cs IH]; intros x em x' rs Hf Hsh Hinv Hbuf Hne Hnr Hr; cbn [Fail.xrun] in Hr.
+  - inversion Hr; subst. cbn [xacked]. rewrite app_nil_r. apply live_records; auto.
+  - destruct (xstep' x c) as [x1 o] eqn:Es. destruct (xrun' x1 cs) as [x2 os] eqn:Er. inversion Hr; subst. clear Hr.
+    cbn [xno_rotate forallb] in Hnr. apply andb_true_iff in Hnr. destruct Hnr as [Hc Hnr].
+    assert (Hc' : (match c with XC CRotate => false | _ => true end) = true) by (destruct c as [[| | |]|]; auto).
+    rewrite xacked1.
+    destruct (live_step _ _ _ _ _ Hf Hsh Hinv Hbuf Hne Hc' Es) as [[F1 [S1 [I1 B1]]]|[D1 [R1 A1]]].
+    + rewrite app_assoc. apply (IH x1); auto.
+      rewrite filter_app, Hne. f_equal.
+      destruct c as [[[|b p]| | |]|]; cbn [xacked]; auto. destruct o; reflexivity.
+    + destruct (xrun_dead _ _ _ _ D1 Hnr Er) as [F2 A2]. rewrite A1, A2, app_nil_r. cbn [app]. rewrite F2. exact R1.
+Qed.
+
+(* the failure is sticky *)
+Lemma sticky_step : forall x c x' r, xstep' x c = (x', r) ->
+  (dead x -> dead x' /\ is_xack c r = false) /\ (is_xfail r = true -> dead x').
+Proof.
+  intros x c x' r Hs. unfold dead.
+  destruct c as [[[|b p]| | |]|]; cbn [Fail.xstep] in Hs.
+  - inversion Hs; subst. split; [auto|discriminate].
+  - destruct (x_shut x) eqn:E1, (x_failed x) eqn:E2; cbn [orb] in Hs;
+      try (inversion Hs; subst; rewrite ?E1, ?E2; split; [intros; split; [auto|reflexivity]|auto]; fail).
+    destruct (fstep B C crc wenv senv (x_wal x) (CAppend (b :: p))) as [a1 o]. unfold lift in Hs.
+    split. { intros [D|D]; discriminate. }
+    destruct o; inversion Hs; subst; cbn [is_xfail x_failed]; auto; discriminate.
+  - destruct (x_shut x) eqn:E1. { inversion Hs; subst. rewrite E1. split; [auto|discriminate]. }
+    destruct (x_failed x) eqn:E2. { inversion Hs; subst. rewrite E2. split; auto. }
+    destruct (do_flush wenv (x_wal x)) as [a1 o]. unfold lift in Hs.
+    split. { intros [D|D]; discriminate. }
+    destruct o; inversion Hs; subst; cbn [is_xfail x_failed]; auto; discriminate.
+  - destruct (x_shut x) eqn:E1. { inversion Hs; subst. rewrite E1. split; [auto|discriminate]. }
+    destruct (x_failed x) eqn:E2. { inversion Hs; subst. rewrite E2. split; auto. }
+    destruct (do_sync wenv senv (x_wal x)) as [a1 o]. unfold lift in Hs.
+    split. { intros [D|D]; discriminate. }
+    destruct o; inversion Hs; subst; cbn [is_xfail x_failed]; auto; discriminate.
+  - destruct (x_failed x) eqn:E2. { inversion Hs; subst. rewrite E2. split; auto. }
+    destruct (do_rotate wenv senv (x_wal x)) as [a1 o]. unfold lift in Hs.
+    destruct o; inversion Hs; subst; cbn [is_xfail x_failed x_shut is_xack]; (split; [intros [D|D]; [discriminate|auto]|auto; try discriminate]).
+  - destruct (x_shut x) eqn:E1. { inversion Hs; subst. rewrite E1. split; [auto|discriminate]. }
+    destruct (x_failed x) eqn:E2. { inversion Hs; subst. cbn. split; auto. }
+    destruct (do_sync wenv senv (x_wal x)) as [a1 o]. inversion Hs; subst. cbn [x_shut x_failed]. split; auto.
+Qed.
+
+Lemma xack_after_run : forall cs x x' rs seen,
+  (seen = true -> dead x) -> xrun' x cs = (x', rs) -> xack_after seen cs rs = false.
+Proof.
+  induction cs as [|c cs IH]; intros x x' rs seen Hseen Hr; cbn [Fail.xrun] in Hr.
+  - inversion Hr; reflexivity.
+  - destruct (xstep' x c) as [x1 o] eqn:Es. destruct (xrun' x1 cs) as [x2 os] eqn:Er. inversion Hr; subst. clear Hr.
+    cbn [xack_after]. destruct (sticky_step _ _ _ _ Es) as [S1 S2].
+    apply orb_false_iff. split.
+    + destruct seen; [|reflexivity]. cbn [andb]. apply S1. auto.
+    + apply (IH x1 x' os); auto. intros E. apply orb_true_iff in E. destruct E as [E|E].
+      * apply S1. auto.
+      * auto.
+Qed.
+
 Section NoError.
 Hypothesis Hwe : forall i, wenv i <> WErr /\ wenv i <> WShort 0.
 Hypothesis Hse : forall i, senv i = true.
@@ -745,6 +904,28 @@ Proof.
   cbn [frun]. pose proof (step_quiet_noerr a c) as H1. destruct (fstep B C crc wenv senv a c) as [a1 x]. cbn [snd] in H1.
   specialize (IH a1). destruct (frun B C crc wenv senv a1 cs) as [a2 xs]. cbn [snd forallb] in *. rewrite H1, IH. reflexivity.
 Qed.
+(* the repaired Wal under short writes only: nothing fails, the flag is never set *)
+Lemma xrun_quiet_noerr : forall cs x,
+  x_failed x = false -> x_shut x = false -> xno_close cs = true ->
+  forallb xquiet (snd (xrun' x cs)) = true.
+Proof.
+  induction cs as [|c cs IH]; intros x Hf Hsh Hnc. reflexivity.
+  cbn [xno_close forallb] in Hnc. apply andb_true_iff in Hnc. destruct Hnc as [Hc Hnc].
+  cbn [Fail.xrun].
+  assert (Hstep : exists x1 o, xstep' x c = (x1, o) /\ xquiet o = true /\ x_failed x1 = false /\ x_shut x1 = false).
+  { destruct c as [c0|]; [|discriminate].
+    assert (Hl : forall o0 : wal * fres, quiet (snd o0) = true ->
+              exists x1 o, lift x o0 = (x1, o) /\ xquiet o = true /\ x_failed x1 = false /\ x_shut x1 = false).
+    { intros [a1 r] Hq. cbn [snd] in Hq. unfold lift. destruct r; try discriminate; eexists _, _; (split; [reflexivity|]); cbn; auto. }
+    destruct c0 as [[|b p]| | |]; cbn [Fail.xstep]; rewrite ?Hf, ?Hsh; cbn [orb].
+    - exists x, XRejected. auto.
+    - apply Hl. apply (step_quiet_noerr (x_wal x) (CAppend (b :: p))).
+    - apply Hl. apply (step_quiet_noerr (x_wal x) CFlush).
+    - apply Hl. apply (step_quiet_noerr (x_wal x) CSync).
+    - apply Hl. apply (step_quiet_noerr (x_wal x) CRotate). }
+  destruct Hstep as [x1 [o [Es [Hq [F1 S1]]]]]. rewrite Es.
+  specialize (IH x1 F1 S1 Hnc). destruct (xrun' x1 cs) as [x2 os]. cbn [snd forallb] in *. rewrite Hq, IH. reflexivity.
+Qed.
 End NoError.
 
 End Proofs.
@@ -784,4 +965,35 @@ Theorem short_writes_harmless : forall B C crc, short_writes_harmless_stmt B C c
 Proof.
   intros B C crc [[HB [_ Hcrc]] HC] wenv senv cs a rs [Hwe Hse] Hr. unfold run1 in Hr.
   pose proof (run_quiet_noerr B C crc wenv senv HB HC Hcrc Hwe Hse cs wal0) as H. rewrite Hr in H. exact H.
+Qed.
+
+(* ================================================================== the repaired Wal *)
+Theorem crash_delivers_exactly_acked : forall B C crc decompress, crash_delivers_exactly_acked_stmt B C crc decompress.
+Proof.
+  intros B C crc decompress [[HB [_ Hcrc]] HC] wenv senv cs x rs Hnr Hr.
+  exact (xrun_live B C crc wenv senv HB HC Hcrc idc decompress cs walx0 [] x rs eq_refl eq_refl (INV0 B crc idc) eq_refl eq_refl Hnr Hr).
+Qed.
+
+Theorem xfailed_invisible_after_crash : forall B C crc decompress, xfailed_invisible_after_crash_stmt B C crc decompress.
+Proof.
+  intros B C crc decompress Hg wenv senv cs x rs Hnr Hr p Hin.
+  rewrite (crash_delivers_exactly_acked B C crc decompress Hg wenv senv cs x rs Hnr Hr) in Hin. exact Hin.
+Qed.
+
+Theorem xlater_acks_recovered : forall B C crc decompress, xlater_acks_recovered_stmt B C crc decompress.
+Proof.
+  intros B C crc decompress Hg wenv senv cs x rs Hnr Hr p Hin.
+  rewrite (crash_delivers_exactly_acked B C crc decompress Hg wenv senv cs x rs Hnr Hr). exact Hin.
+Qed.
+
+Theorem no_ack_after_failure : forall B C crc, no_ack_after_failure_stmt B C crc.
+Proof.
+  intros B C crc wenv senv cs x rs Hr.
+  apply (xack_after_run B C crc wenv senv cs walx0 x rs false); [discriminate|exact Hr].
+Qed.
+
+Theorem xshort_writes_harmless : forall B C crc, xshort_writes_harmless_stmt B C crc.
+Proof.
+  intros B C crc [[HB [_ Hcrc]] HC] wenv senv cs x rs [Hwe Hse] Hnc Hr. unfold xrun1 in Hr.
+  pose proof (xrun_quiet_noerr B C crc wenv senv HB HC Hcrc Hwe Hse cs walx0 eq_refl eq_refl Hnc) as H. rewrite Hr in H. exact H.
 Qed.
